@@ -88,6 +88,7 @@ type uval struct {
 	d     dim
 	kind  int
 	nodim bool // kind is known, the dimension is not (e.g. Ray.Direction: any vector)
+	nokind bool // the kind was inferred from one operand only (unknown ± point): not used by ORIGIN
 }
 
 func known(d dim, kind int) uval { return uval{st: uKnown, d: d, kind: kind} }
@@ -147,7 +148,7 @@ func (c *Ctx) retDims(fn *ssa.Function) []uval {
 	}
 	retDimsProg[fn] = true
 	e := &unitsEngine{c: c, fn: fn, memo: map[ssa.Value]uval{}, inProg: map[ssa.Value]bool{},
-		reported: map[ssa.Instruction]string{}, checked: map[ssa.Instruction]bool{}}
+		reported: map[ssa.Instruction]string{}, checked: map[ssa.Instruction]bool{}, origin: map[ssa.Instruction]string{}, originOK: map[ssa.Instruction]bool{}}
 	first := true
 	for _, b := range fn.Blocks {
 		for _, ins := range b.Instrs {
@@ -187,6 +188,8 @@ type unitsEngine struct {
 	inProg map[ssa.Value]bool
 	// reports are collected per instruction so that each site is one obligation
 	reported map[ssa.Instruction]string
+	origin   map[ssa.Instruction]string // ORIGIN findings (points used as vectors)
+	originOK map[ssa.Instruction]bool
 	checked  map[ssa.Instruction]bool
 }
 
@@ -315,6 +318,17 @@ func paramSeed(fn *ssa.Function, p *ssa.Parameter) (uval, bool) {
 		}
 	}
 	return uval{}, false
+}
+
+// unitOriginRule, when set, makes runUnits also emit ORIGIN obligations: a
+// Dot product of a point with a vector.
+var unitOriginRule string
+
+// originExceptions: functions where a point is deliberately read as the
+// vector from the world origin (reason each).
+var originExceptions = map[string]string{
+	"(*model3d.LinearConstraint).Contains": "a half-space n.x <= Max: the plane's offset from the world origin is part of Max by definition",
+	"(*model2d.LinearConstraint).Contains": "a half-space n.x <= Max: the plane's offset from the world origin is part of Max by definition",
 }
 
 func (e *unitsEngine) report(ins ssa.Instruction, msg string) {
@@ -730,10 +744,13 @@ func (e *unitsEngine) callResult(call *ssa.Call, idx int) uval {
 			r := sameDim(a, b)
 			if r.st == uKnown {
 				switch {
-				case name == "Sub" && a.kind == kPoint && b.kind == kPoint:
+				case name == "Sub" && a.kind == kPoint && b.kind == kPoint && a.st == uKnown && b.st == uKnown:
 					r.kind = kVector
 				case a.kind == kPoint || b.kind == kPoint:
 					r.kind = kPoint
+					if a.st != uKnown || b.st != uKnown || a.nokind || b.nokind {
+						r.nokind = true
+					}
 				default:
 					r.kind = kVector
 				}
@@ -762,6 +779,17 @@ func (e *unitsEngine) callResult(call *ssa.Call, idx int) uval {
 			match(a, b, name)
 			return sameDim(a, uval{st: b.st, d: b.d, kind: a.kind, nodim: b.nodim})
 		case "Dot", "Cross":
+			if name == "Dot" && unitOriginRule != "" {
+				b := arg(1)
+				pa, pb := a.st == uKnown && a.kind == kPoint && !a.nokind, b.st == uKnown && b.kind == kPoint && !b.nokind
+				va, vb := a.st == uKnown && a.kind == kVector, b.st == uKnown && b.kind == kVector
+				switch {
+				case pa && vb || pb && va:
+					e.origin[call] = "a point is projected onto a direction (Dot of a point with a vector): the coordinate is measured from the world origin, not from the shape's own origin (subtract P1/Center first)"
+				case va && vb:
+					e.originOK[call] = true
+				}
+			}
 			r := mulU(a, arg(1), 1)
 			if r.st == uKnown {
 				if name == "Dot" {
@@ -987,7 +1015,7 @@ func (c *Ctx) runUnits(rule string, pkgs []*packages.Package, filter func(fn *ss
 			}
 			c.analysed(qname(fn))
 			e := &unitsEngine{c: c, rule: rule, fn: fn, memo: map[ssa.Value]uval{}, inProg: map[ssa.Value]bool{},
-				reported: map[ssa.Instruction]string{}, checked: map[ssa.Instruction]bool{}}
+				reported: map[ssa.Instruction]string{}, checked: map[ssa.Instruction]bool{}, origin: map[ssa.Instruction]string{}, originOK: map[ssa.Instruction]bool{}}
 			for _, b := range fn.Blocks {
 				for _, ins := range b.Instrs {
 					if v, ok := ins.(ssa.Value); ok {
@@ -1035,6 +1063,26 @@ func (c *Ctx) runUnits(rule string, pkgs []*packages.Package, filter func(fn *ss
 							e.report(ret, fmt.Sprintf("result %d is a %s on this path but a %s on another path of the same function", i, u, firstRet[i]))
 						} else {
 							e.checked[ret] = true
+						}
+					}
+				}
+			}
+			if unitOriginRule != "" {
+				no := 0
+				for _, b := range fn.Blocks {
+					for _, ins := range b.Instrs {
+						msg, bad := e.origin[ins]
+						if !bad && !e.originOK[ins] {
+							continue
+						}
+						no++
+						key := fmt.Sprintf("%s dot#%d", qname(fn), no)
+						if why, ok := originExceptions[qname(fn)]; ok && bad {
+							c.except(unitOriginRule, key, ins.Pos(), why)
+						} else if bad {
+							c.bad(unitOriginRule, key, ins.Pos(), msg)
+						} else {
+							c.ok(unitOriginRule, key, ins.Pos(), "both operands are vectors")
 						}
 					}
 				}
